@@ -53,6 +53,11 @@ Bodies == {b \in [inner : Inners, exit : Exits, encl : Encls, place : Places] : 
 Shapes == {"self", "mutual", "forEach", "map", "filter", "reduce", "sort", "some", "every", "find", "getter", "setter",
            "valueOf", "call", "apply", "bind", "new", "eval", "Function", "operands", "arrow",
            "method", "ctor_mutual", "ctor_method", "bound_fn", "toString", "forEach_mutual"}
+\* recursion that does not pass through a built-in, started from script code a built-in is running
+RecEntries == {"forEach", "map", "reduce", "sort", "getter", "setter", "valueOf", "toString", "call", "apply", "bind", "replace",
+               "nested", "eval", "Function"}
+RecKinds == {"self", "mutual", "method", "ctor", "operands"}
+EnteredShapes == {"in_" \o e \o ":" \o k : e \in RecEntries, k \in RecKinds}
 \* the memory limit is enforced on its own: with and without a time limit configured on the same context
 TLs == {0, 1}
 Ms == IF Quick THEN {5000, 200000} ELSE {5000, 50000, 200000, 2000000}
@@ -62,7 +67,7 @@ vars == <<ph, cur, rec_i>>
 EnumInit == ph = "start" /\ cur = <<>> /\ rec_i = 0
 EnumNext == /\ ph = "start"
             /\ \/ \E b \in Bodies : ph' = "case" /\ cur' = [kind |-> "body", b |-> b] /\ UNCHANGED rec_i
-               \/ \E s \in Shapes : \E m \in Ms : \E tl \in TLs :
+               \/ \E s \in Shapes \cup EnteredShapes : \E m \in Ms : \E tl \in TLs :
                      ph' = "case" /\ cur' = [kind |-> "shape", s |-> s, m |-> m, tl |-> tl] /\ UNCHANGED rec_i
 EnumEmit == ph = "start" \/ PrintT(ToJson(cur))
 
